@@ -33,7 +33,7 @@ const P_VALUE: f64 = 1.0 / std::f64::consts::E; // ~0.368
 const LINKS_SIZE: usize = std::mem::size_of::<Links>();
 
 /// Maximum node size (with full tower)
-const MAX_NODE_SIZE: usize = std::mem::size_of::<Node>() + (MAX_HEIGHT - 1) * LINKS_SIZE;
+pub(crate) const MAX_NODE_SIZE: usize = std::mem::size_of::<Node>() + (MAX_HEIGHT - 1) * LINKS_SIZE;
 
 /// Precomputed probabilities for random height generation
 fn probabilities() -> &'static [u32; MAX_HEIGHT] {
